@@ -454,13 +454,19 @@ def confirm(run, want, kinds_needing_e2e=('I',)):
         run.cex_unconfirmed = []
 
 
-def step_jobs(want, plan, md_inf=(True,)):
+def step_jobs(want, plan, md_inf=(True,), exact_plan=((1, 1), (2, 1), (1, 2))):
+    """ABSTRACT steps for every (N, k) of `plan`; additionally the same step in EXACT arithmetic (rational functions, fresh NRA solver) for the small
+    states of `exact_plan`: their counterexamples are real-arithmetic models and replay natively as they are."""
     jobs = []
     for (N, k) in plan:
         for recalc in (False, True):
             for best in range(k):
                 for mi in md_inf:
                     jobs.append((step_job, (N, k, want, False, 30000, recalc, mi, best)))
+    for (N, k) in exact_plan:
+        for recalc in (False, True):
+            for best in range(k):
+                jobs.append((step_job, (N, k, want, False, 60000, recalc, md_inf[-1], best, True)))
     return jobs
 
 
